@@ -6,6 +6,7 @@ import TableauVerif.Model.Types
 import TableauVerif.Model.Protogen
 import TableauVerif.Spec.C17
 import TableauVerif.Spec.C15
+import TableauVerif.Model.XmlDoc
 namespace Driver
 open TableauVerif TableauVerif.Model TableauVerif.Model.Types TableauVerif.Model.Protogen
 
@@ -128,6 +129,50 @@ def decPGRes? (s : String) : Option (PRes (List PField)) :=
     | _ => none
   else none
 
+/-! ### XML element trees -/
+open TableauVerif.Model.XmlDoc in
+partial def parseXNodes (cs : List Char) (acc : List XNode) : Option (List XNode × List Char) :=
+  match cs with
+  | '<' :: rest =>
+    let (nameS, r1) := takeAtom rest []
+    match r1 with
+    | '|' :: r2 =>
+      let (attrS, r3) := takeAtom r2 []
+      match r3 with
+      | '|' :: r4 =>
+        let (textS, r5) := takeAtom r4 []
+        match r5 with
+        | '|' :: '[' :: r6 =>
+          match parseXNodes r6 [] with
+          | some (kids, ']' :: '>' :: r7) =>
+            let attrs? : Option (List (Str × Str)) :=
+              if attrS.isEmpty then some [] else
+              ((String.ofList attrS).splitOn ",").mapM fun (e : String) =>
+                match e.splitOn "=" with
+                | [n, v] => (do some ((← decStr? n), (← decStr? v)) : Option (Str × Str))
+                | _ => none
+            match decStr? (String.ofList nameS), attrs?, decStr? (String.ofList textS) with
+            | some n, some a, some t => parseXNodes r7 (XNode.mk n a t kids :: acc)
+            | _, _, _ => none
+          | _ => none
+        | _ => none
+      | _ => none
+    | _ => none
+  | _ => some (acc.reverse, cs)
+
+open TableauVerif.Model.XmlDoc in
+def encNKind : NKind → String
+  | .scalar => "0" | .list => "1" | .map => "2"
+
+open TableauVerif.Model.XmlDoc in
+mutual
+def renderBNode : BNode → String
+  | .mk k n v cs => "(" ++ encNKind k ++ "|" ++ encStr n ++ "|" ++ encStr v ++ "|" ++ renderBNodes cs ++ ")"
+def renderBNodes : List BNode → String
+  | [] => ""
+  | b :: bs => renderBNode b ++ renderBNodes bs
+end
+
 def clsName : Cls → String
   | .map => "map" | .keyedList => "keyed" | .list => "list" | .struct => "struct" | .enum => "enum" | .scalar => "scalar"
   | .other => "other"
@@ -186,6 +231,18 @@ def pg (fn : String) (a : List String) : Option String := do
   | "c17.cls", [_, text] =>
     let (cls, comps) := Spec.C17.observe (← decStr? text)
     some s!"{clsName cls} {encParts comps}"
+  | "c09.xml2node", [tree] =>
+    match parseXNodes tree.toList [] with
+    | some ([x], []) =>
+      match Model.XmlDoc.toBook x with
+      | .ok b => some ("ok " ++ renderBNode b)
+      | .error .err => some "err"
+      | .error .unmodelled => some "unmodelled"
+    | _ => none
+  | "c09.doc", _ => some "faithful"           -- the specification of the walker: the message states exactly the document
+  | "c09.known", _ => some "faithful"
+  | "o.c09.doc", args => some (if (args.getLast?.getD "").startsWith "faithful" then "holds" else "FAILS")
+  | "o.c09.known", args => some (if (args.getLast?.getD "").startsWith "faithful" then "holds" else "FAILS")
   | "c19.origin", _ => some "same"            -- C19_equal_partial: both paths assemble the same importers and call the same parser
   | "o.c19.origin", args => some (if (args.getLast?.getD "").startsWith "same" then "holds" else "FAILS")
   | "c02.closure", _ => some "closed"         -- protogen's accepted headers: see DESIGN.md C02 (model: header parser + option round trip)
